@@ -31,14 +31,18 @@ def tt_reshape(E, s):
     eps, e = _eps(E, s, 1e-16)
     if M is None:
         target = list(s['target'])
-        y = E.tt.reshape(x, target) if eps is None else E.tt.reshape(x, target, eps)
+        t_arg = list(target)
+        y = E.tt.reshape(x, t_arg) if eps is None else E.tt.reshape(x, t_arg, eps)
+        E.true('shape_argument_intact', t_arg == list(target))
         E.true('is_tt', isinstance(y, E.tt.TT) and not y.is_ttm)
         E.true('shape', list(y.N) == target)
         ref = tn.reshape(xd, target)
     else:
         tM, tN = s['target_M'], s['target_N']
         shape = [(m, n) for m, n in zip(tM, tN)]
+        sh0 = list(shape)
         y = E.tt.reshape(x, shape) if eps is None else E.tt.reshape(x, shape, eps)
+        E.true('shape_argument_intact', shape == sh0)
         E.true('is_ttm', isinstance(y, E.tt.TT) and y.is_ttm)
         E.true('shape', list(y.M) == list(tM) and list(y.N) == list(tN))
         ref = tn.reshape(xd, list(tM) + list(tN))
@@ -60,7 +64,9 @@ def tt_permute(E, s):
     xd = dense(E, xc)
     eps, e = _eps(E, s, 1e-12)
     dims = list(s['dims'])
-    y = E.tt.permute(x, dims) if eps is None else E.tt.permute(x, dims, eps)
+    d_arg = list(dims)
+    y = E.tt.permute(x, d_arg) if eps is None else E.tt.permute(x, d_arg, eps)
+    E.true('dims_argument_intact', d_arg == list(dims))
     E.true('is_tt', isinstance(y, E.tt.TT) and y.is_ttm == (M is not None))
     if M is None:
         ref = tn.permute(xd, dims)
